@@ -20,7 +20,7 @@ def graph_circuit_gates(code, n):
 STYLES = ("random", "random", "random", "uniform", "pauli-frame", "all-minus", "random", "one-odd")
 
 
-def member(label, n, rnd, members=None, plain_graph=False, style="random"):
+def member(label, n, rnd, members=None, plain_graph=False, style="random", mix=True):
     """A random signed stabilizer of the LC class `label`.
 
     Returns dict: gens (random generating set of the signed group), circuit (gate list preparing
@@ -52,8 +52,59 @@ def member(label, n, rnd, members=None, plain_graph=False, style="random"):
     local = [(nm, (q,)) for q in range(n) for nm in lcorbit.LC24[picks[q]]]
     circ = circ + flips + local
     gens = state_of(circ, n)
-    gens = groups.random_presentation(gens, n, rnd)
+    if mix:
+        gens = groups.random_presentation(gens, n, rnd)
     return {"gens": gens, "circuit": circ, "code": code, "local": local, "graph_state": False, "n": n, "style": style}
+
+
+def tableau_neighbours(gens, n, max_bits=2):
+    """All valid stabilizers whose generator tableau differs from `gens` in one or two bits (an x or z bit of
+    one qubit of one generator; signs unchanged).  These are the requests on which a result computed for
+    `gens` is most easily confused with the right one (lossy memoisation keys, truncated fingerprints)."""
+    from ..oracle.pauli import commute
+    from ..oracle.groups import rank
+    m = len(gens)
+    bits = [(j, part, q) for j in range(m) for part in (0, 1) for q in range(n)]
+
+    def flip(g, part, q):
+        return (g[0] ^ (1 << q), g[1], g[2]) if part == 0 else (g[0], g[1] ^ (1 << q), g[2])
+    out = []
+    for a in range(len(bits)):
+        ja, pa, qa = bits[a]
+        ga = flip(gens[ja], pa, qa)
+        ok_a = all(commute(ga, gens[k]) for k in range(m) if k != ja)
+        if ok_a:
+            cand = [ga if k == ja else gens[k] for k in range(m)]
+            if (ga[0] or ga[1]) and rank(cand, n) == m:
+                out.append(cand)
+        if max_bits < 2:
+            continue
+        for b in range(a + 1, len(bits)):
+            jb, pb, qb = bits[b]
+            cand = list(gens)
+            cand[ja] = ga
+            cand[jb] = flip(cand[jb], pb, qb)
+            changed = {ja, jb}
+            good = all(commute(cand[i], cand[k]) for i in changed for k in range(m) if k != i)
+            if good and all(c[0] or c[1] for c in cand) and rank(cand, n) == m:
+                out.append(cand)
+    return out
+
+
+def generator_replacements(gens, n, j):
+    """All valid stabilizers that share every generator with `gens` except generator j (same sign)."""
+    from ..oracle.pauli import commute
+    from ..oracle.groups import rank
+    others = [g for k, g in enumerate(gens) if k != j]
+    out = []
+    for x in range(1 << n):
+        for z in range(1 << n):
+            h = (x, z, gens[j][2])
+            if (x or z) and (x, z) != (gens[j][0], gens[j][1]) and all(commute(h, g) for g in others):
+                cand = [h if k == j else gens[k] for k in range(len(gens))]
+                if rank(cand, n) == len(gens):
+                    out.append(cand)
+    return out
 
 
 def hostile_presentation(gens, n, rnd, kind):
